@@ -7,13 +7,17 @@
   TLS stacks behave so is observed on the real code over the whole matrix, not proved.
 
   The quantifier of C18 is a finite matrix, so case analysis / `decide` over the whole matrix is a
-  legitimate proof of the matrix statements (`*_matrix`, `model_satisfies_spec_off_known_cells`);
-  the statements about the decision functions themselves are proved for ARBITRARY certificates,
-  names, times and peers.
+  legitimate proof of the matrix statements (`*_matrix`, `model_satisfies_spec`); the statements
+  about the decision functions themselves are proved for ARBITRARY certificates, names, times and
+  peers.
 
-  DTLS: `client_accepts_only_authenticated` is FALSE for the pion client (known finding D11: no
-  name / address check when `ServerName` is empty or an IP literal). The DTLS theorem is therefore the
-  `_partial` one, with `dtls_name_unchecked_witness` showing the full statement fails.
+  DTLS: pion/dtls checks the certificate's name only against a `ServerName` that is a DNS name (the
+  former finding D11). Since 90a2eb6 the exporter installs a `VerifyPeerCertificate` hook for an empty
+  or IP `ServerName`; the hook is read off the regenerated facts (`tie_dtls_name_hook_source`,
+  `tie_dtls_client`), with it the full-strength statements hold for DTLS too
+  (`dtls_client_accepts_only_authenticated`, `model_satisfies_spec`, `dtls_name_check_restored`),
+  and WITHOUT it the old witness goes through again (`hook_absent_reads_as_none`, `d11_without_hook`,
+  `d11_witness_without_hook`) - so a tree that loses or weakens the hook breaks these theorems.
 -/
 import IpfixModel.Spec.C18
 namespace Ipfix.C18
@@ -24,25 +28,63 @@ open Ipfix.TLS Generated.TLS
 /-- `createClientConfig`, no client certificate: RootCAs, MinVersion TLS 1.2, ServerName passed on, nothing else -/
 theorem tie_tls_client_nocert :
     libTLSClient false = { rootsSet := true, skipVerify := false, serverNamePassed := true, minVersion := 12,
-                           maxVersion := 13, sendsCert := false, extendedMasterSecret := true } := by decide
+                           maxVersion := 13, sendsCert := false, extendedMasterSecret := true, nameHook := noHook } := by decide
 
 /-- `createClientConfig`, with a client certificate: the same plus Certificates -/
 theorem tie_tls_client_cert :
     libTLSClient true = { rootsSet := true, skipVerify := false, serverNamePassed := true, minVersion := 12,
-                          maxVersion := 13, sendsCert := true, extendedMasterSecret := true } := by decide
+                          maxVersion := 13, sendsCert := true, extendedMasterSecret := true, nameHook := noHook } := by decide
 
 /-- both branches at once: the only difference is whether a client certificate is configured -/
 theorem tie_tls_client (hasCert : Bool) :
     libTLSClient hasCert = { rootsSet := true, skipVerify := false, serverNamePassed := true, minVersion := 12,
-                             maxVersion := 13, sendsCert := hasCert, extendedMasterSecret := true } := by
+                             maxVersion := 13, sendsCert := hasCert, extendedMasterSecret := true, nameHook := noHook } := by
   cases hasCert
   · exact tie_tls_client_nocert
   · exact tie_tls_client_cert
 
-/-- the exporter's `dtls.Config`: RootCAs, ServerName passed on, RequireExtendedMasterSecret, no client certificate -/
+/-- the hook of 90a2eb6 as extracted from the source: ONE func literal is assigned to a security field, on the DTLS
+    path of `InitExportingProcess`, under `ServerName == "" || net.ParseIP(ServerName) != nil`; its text is the
+    name check the model understands (`leaf.VerifyHostname(expectedName)` on the first raw certificate); and the
+    assignments that reach it say that `config` is the `dtls.Config` literal, `tlsConfig` the caller's
+    `TLSClientConfig`, and `expectedName` is `ServerName`, replaced when empty by the host of `CollectorAddress` -/
+theorem tie_dtls_name_hook_source :
+    hooks.map (fun h => (h.file, h.func, h.lhs, h.conds, h.body == nameCheckBody)) =
+      [("pkg/exporter/process.go", "InitExportingProcess", "config.VerifyPeerCertificate",
+        ["input.TLSClientConfig != nil", "!(input.CollectorProtocol == \"tcp\")", "input.CollectorProtocol == \"udp\"", "!(!ok)",
+         "tlsConfig.ServerName == \"\" || net.ParseIP(tlsConfig.ServerName) != nil"], true)] ∧
+    (hooks.flatMap (·.defs)).map (fun d => (d.lhs, d.rhs, d.conds.drop 4)) =
+      [("tlsConfig", "input.TLSClientConfig", []),
+       ("roots", "x509.NewCertPool()", []),
+       ("config", "&dtls.Config{ RootCAs: roots, ExtendedMasterSecret: dtls.RequireExtendedMasterSecret, ServerName: tlsConfig.ServerName, }", []),
+       ("expectedName", "tlsConfig.ServerName", ["tlsConfig.ServerName == \"\" || net.ParseIP(tlsConfig.ServerName) != nil"]),
+       ("host, _, err", "net.SplitHostPort(input.CollectorAddress)",
+        ["tlsConfig.ServerName == \"\" || net.ParseIP(tlsConfig.ServerName) != nil", "expectedName == \"\""]),
+       ("expectedName", "host",
+        ["tlsConfig.ServerName == \"\" || net.ParseIP(tlsConfig.ServerName) != nil", "expectedName == \"\"", "!(err != nil)"])] := by
+  decide +kernel
+
+/-- the exporter's `dtls.Config`: RootCAs, ServerName passed on, RequireExtendedMasterSecret, no client certificate,
+    and the name check read off the hook: installed for an empty and for an IP `ServerName` (not for a DNS name,
+    which pion checks itself), verifying `ServerName` or else the dialled host -/
 theorem tie_dtls_client :
     libDTLSClient = { rootsSet := true, skipVerify := false, serverNamePassed := true, minVersion := 12,
-                      maxVersion := 12, sendsCert := false, extendedMasterSecret := true } := by decide
+                      maxVersion := 12, sendsCert := false, extendedMasterSecret := true,
+                      nameHook := { onUnset := true, onIP := true, onDNS := false, hostFallback := true } } := by decide +kernel
+
+/-- the reading of the hook is a function of the facts: with no hook extracted (the tree before 90a2eb6, or one
+    that lost the assignment) the DTLS client has NO name check of its own, whatever the literal -/
+theorem hook_absent_reads_as_none (assigns : List (String × String × String × String)) (l : ConfigLit) :
+    dtlsHookOf [] assigns l = noHook := rfl
+
+/-- ... and a hook whose text is not the name check (e.g. one that returns nil) is not taken for one -/
+theorem hook_unrecognised_reads_as_none (h : Hook) (assigns : List (String × String × String × String)) (l : ConfigLit)
+    (hb : h.body ≠ nameCheckBody) : dtlsHookOf [h] assigns l = noHook := by
+  have hb' : (h.body == nameCheckBody) = false := by simpa using hb
+  unfold dtlsHookOf
+  by_cases hf : (h.func == "InitExportingProcess" && h.lhs == "config.VerifyPeerCertificate") = true
+  · simp [List.filter, hf, hb']
+  · simp [List.filter, hf]
 
 /-- `createServerConfig` without a client CA: certificate, MinVersion TLS 1.2, no client authentication -/
 theorem tie_tls_server_noca :
@@ -60,9 +102,12 @@ theorem tie_dtls_server :
     libDTLSServer = { hasCert := true, clientAuth := .noClientCert, clientCAsSet := true,
                       minVersion := 12, maxVersion := 12 } := by decide
 
-/-- nothing in the three files mentions InsecureSkipVerify or re-assigns a security field of a config -/
+/-- nothing in the three files mentions InsecureSkipVerify, and the only security field of a config assigned after
+    its construction is the DTLS exporter's `VerifyPeerCertificate` hook (which can only refuse more) -/
 theorem tie_no_insecure_skip_verify :
-    insecureSkipVerifyMentions = [] ∧ fieldAssignments = [] := by decide
+    insecureSkipVerifyMentions = [] ∧ weakeningAssignments = [] ∧
+    fieldAssignments.map (fun a => (a.1, a.2.1, a.2.2.1, a.2.2.2 == nameCheckBody)) =
+      [("pkg/exporter/process.go", "InitExportingProcess", "config.VerifyPeerCertificate", true)] := by decide +kernel
 
 /-- exactly the six config literals the model reads exist (a seventh would be a configuration the model does not know) -/
 theorem tie_config_literals :
@@ -88,11 +133,12 @@ theorem tie_collector_input :
 theorem tie_libCfgs :
     libCfgs =
       { tlsClientNoCert := { rootsSet := true, skipVerify := false, serverNamePassed := true, minVersion := 12,
-                             maxVersion := 13, sendsCert := false, extendedMasterSecret := true }
+                             maxVersion := 13, sendsCert := false, extendedMasterSecret := true, nameHook := noHook }
         tlsClientCert := { rootsSet := true, skipVerify := false, serverNamePassed := true, minVersion := 12,
-                           maxVersion := 13, sendsCert := true, extendedMasterSecret := true }
+                           maxVersion := 13, sendsCert := true, extendedMasterSecret := true, nameHook := noHook }
         dtlsClient := { rootsSet := true, skipVerify := false, serverNamePassed := true, minVersion := 12,
-                        maxVersion := 12, sendsCert := false, extendedMasterSecret := true }
+                        maxVersion := 12, sendsCert := false, extendedMasterSecret := true,
+                        nameHook := { onUnset := true, onIP := true, onDNS := false, hostFallback := true } }
         tlsServerNoCA := { hasCert := true, clientAuth := .noClientCert, clientCAsSet := false, minVersion := 12, maxVersion := 13 }
         tlsServerCA := { hasCert := true, clientAuth := .requireAndVerify, clientCAsSet := true, minVersion := 12, maxVersion := 13 }
         dtlsServer := { hasCert := true, clientAuth := .noClientCert, clientCAsSet := true, minVersion := 12, maxVersion := 12 }
@@ -119,7 +165,7 @@ theorem no_plaintext_session (c : Cell) (hp : c.peer = .plainSrv ∨ c.peer = .p
   revert t sc sn cc ca p
   decide +kernel
 
-/-! ## The exporter authenticates the collector (TLS) -/
+/-! ## The exporter authenticates the collector (TLS and DTLS) -/
 
 /-- C18, first clause, for the crypto/tls client with the configuration `createClientConfig` builds,
     for ARBITRARY server certificates, names, times and server configurations: if the handshake can
@@ -138,9 +184,28 @@ theorem client_accepts_only_authenticated (hasCert : Bool) (serverName : Option 
   obtain ⟨⟨h12, _⟩, rfl⟩ := hv
   exact ⟨ha.1.1, ha.1.2, ha.2, h12⟩
 
-/-- the same over the matrix: whenever the model lets the exporter complete a TLS session, the cell is one
-    where the property allows it -/
-theorem client_accepts_only_authenticated_matrix (c : Cell) (ht : c.transport = .tls) (hu : c.exporterUnderTest = true)
+/-- C18, third clause ("with DTLS the exporter likewise refuses servers it cannot verify"), now at full strength:
+    for the pion client with the exporter's `dtls.Config` AND the exporter's hook, for ARBITRARY server
+    certificates, names, dialled hosts and times: an accepted certificate chains to the configured CA, is within
+    its validity period and is valid for the expected name or address (ServerName if set, else the dialled
+    host). The version is DTLS 1.2 (pion speaks nothing else; `tie_dtls_client`: min = max = 12). -/
+theorem dtls_client_accepts_only_authenticated (serverName : Option Name) (host : Name) (cert : PeerCert) (t : Nat)
+    (ha : pionVerifiesServer libDTLSClient serverName host cert t = true) :
+    cert.issuer = .trustedCA ∧ (cert.notBefore ≤ t ∧ t ≤ cert.notAfter) ∧
+    nameMatches (serverName.getD host) cert = true := by
+  rw [tie_dtls_client] at ha
+  simp only [pionVerifiesServer, pionOwnVerification, hookVerifiesName, Bool.and_eq_true, Bool.false_or] at ha
+  obtain ⟨hown, hhook⟩ := ha
+  simp [chainsTo, withinValidity, pionCheckedName] at hown
+  refine ⟨hown.1.1, hown.1.2, ?_⟩
+  match serverName, hown, hhook with
+  | none, _, hhook => simpa [NameHook.installedFor] using hhook
+  | some (.ip s), _, hhook => simpa [NameHook.installedFor] using hhook
+  | some (.dns s), hown, _ => simpa using hown.2
+
+/-- the same over the matrix, for BOTH transports: whenever the model lets the exporter complete a session, the
+    cell is one where the property allows it -/
+theorem client_accepts_only_authenticated_matrix (c : Cell) (hv : c.valid = true) (hu : c.exporterUnderTest = true)
     (hi : (session c).initOk = true) : sessionAllowed c = true := by
   simp only [session, tie_libCfgs] at *
   obtain ⟨t, sc, sn, cc, ca, p⟩ := c
@@ -184,91 +249,140 @@ theorem collector_requires_client_cert_matrix (c : Cell) (ht : c.transport = .tl
   revert t sc sn cc ca p
   decide +kernel
 
-/-! ## DTLS: partial -/
+/-! ## DTLS: what the repair of D11 bought, and what the tree is without it -/
 
-/-- C18 for the pion client with the exporter's `dtls.Config`, as far as it holds: an accepted server
+/-- pion's OWN verification with the exporter's `dtls.Config`, which is all there was before 90a2eb6: an accepted
     certificate chains to the configured CA and is within validity; its NAME is checked only against a
-    `ServerName` that is set and not an IP literal. -/
-theorem dtls_client_accepts_partial (serverName : Option Name) (cert : PeerCert) (t : Nat)
-    (ha : pionVerifiesServer libDTLSClient serverName cert t = true) :
+    `ServerName` that is set and not an IP literal -/
+theorem pion_own_verification_partial (serverName : Option Name) (cert : PeerCert) (t : Nat)
+    (ha : pionOwnVerification libDTLSClient serverName cert t = true) :
     cert.issuer = .trustedCA ∧ (cert.notBefore ≤ t ∧ t ≤ cert.notAfter) ∧
     (∀ s, serverName = some (.dns s) → nameMatches (.dns s) cert = true) := by
   rw [tie_dtls_client] at ha
-  simp [pionVerifiesServer, chainsTo, withinValidity, pionCheckedName] at ha
+  simp [pionOwnVerification, chainsTo, withinValidity, pionCheckedName] at ha
   refine ⟨ha.1.1, ha.1.2, ?_⟩
   intro s hs
   subst hs
   simpa using ha.2
 
-/-- finding D11: the full statement is false for DTLS. With `ServerName` unset the exporter completes a
-    session (and the message is delivered) with a server whose certificate - issued by the configured CA,
-    within validity - is for other.example / 10.9.9.9, not for the dialled 127.0.0.1. -/
-theorem dtls_name_unchecked_witness :
-    let c : Cell := { transport := .dtls, serverCert := .wrongSAN, serverName := .unset, clientCert := .none,
-                      clientCA := false, peer := .real }
-    (session c).initOk = true ∧ (session c).delivered = true ∧ sessionAllowed c = false ∧
-    nameMatches (expectedName c) (serverCertOf c.serverCert) = false ∧
-    holdsOn c (obsOf (session c)) = .fails "dtls-no-name-check" := by decide
+/-- ... and it is strictly weaker than the property: a certificate of the trusted CA for other.example / 10.9.9.9
+    passes it with `ServerName` unset or an IP literal, although the server is dialled at 127.0.0.1 -/
+theorem pion_own_verification_checks_no_name :
+    pionOwnVerification libDTLSClient none (serverCertOf .wrongSAN) now = true ∧
+    pionOwnVerification libDTLSClient (some (.ip "127.0.0.1")) (serverCertOf .wrongSAN) now = true ∧
+    nameMatches dialHost (serverCertOf .wrongSAN) = false := by decide +kernel
 
-/-- ... while the same certificate IS refused by the TLS exporter, and by the DTLS exporter once `ServerName` is a DNS name -/
-theorem name_checked_elsewhere :
+/-- the repair: in every cell of the former finding D11 (DTLS, `ServerName` unset or an IP literal, certificate of
+    the trusted CA, within validity, NOT valid for the expected name / address) the exporter's session is now
+    refused and nothing is delivered -/
+theorem dtls_name_check_restored (c : Cell) (hk : formerD11 c = true) :
+    (session c).initOk = false ∧ (session c).delivered = false := by
+  simp only [session, tie_libCfgs] at *
+  obtain ⟨t, sc, sn, cc, ca, p⟩ := c
+  revert t sc sn cc ca p
+  decide +kernel
+
+/-- the old witness of D11, refused now; the same certificate is refused by the TLS exporter and by the DTLS
+    exporter with a DNS `ServerName` (as it always was) -/
+theorem name_checked_everywhere :
+    (session { transport := .dtls, serverCert := .wrongSAN, serverName := .unset, clientCert := .none,
+               clientCA := false, peer := .real }).initOk = false ∧
+    (session { transport := .dtls, serverCert := .wrongSAN, serverName := .ip, clientCert := .none,
+               clientCA := false, peer := .real }).initOk = false ∧
     (session { transport := .tls, serverCert := .wrongSAN, serverName := .unset, clientCert := .none,
                clientCA := false, peer := .real }).initOk = false ∧
     (session { transport := .dtls, serverCert := .wrongSAN, serverName := .dns, clientCert := .none,
-               clientCA := false, peer := .real }).initOk = false := by decide
+               clientCA := false, peer := .real }).initOk = false := by
+  simp only [session, tie_libCfgs]
+  decide +kernel
 
-/-- the DTLS exporter of the model completes a session only where the property allows it, EXCEPT in the D11 cells -/
-theorem dtls_client_accepts_matrix_partial (c : Cell) (hv : c.valid = true) (ht : c.transport = .dtls)
-    (hu : c.exporterUnderTest = true) (hk : knownD11 c = false) (hi : (session c).initOk = true) : sessionAllowed c = true := by
-  simp only [session, tie_libCfgs] at *
+/-- the hook does not refuse everybody: a certificate valid for the dialled 127.0.0.1 / for localhost is accepted
+    by the DTLS exporter with `ServerName` unset, "127.0.0.1" and "localhost", and the message is delivered -/
+theorem dtls_valid_names_still_accepted (sn : ServerNameKind) (h : sn = .unset ∨ sn = .ip ∨ sn = .dns) :
+    session { transport := .dtls, serverCert := .trusted, serverName := sn, clientCert := .none,
+              clientCA := false, peer := .real } = { initOk := true, delivered := true, version := none } := by
+  simp only [session, tie_libCfgs]
+  rcases h with rfl | rfl | rfl <;> decide +kernel
+
+/-- the tie is meaningful: with the hook taken away (`hook_absent_reads_as_none`: that IS what the model reads off
+    a tree without the assignment) every former D11 cell completes its session, delivers the message and fails
+    the property predicate with `name-mismatch` - and no other valid cell fails -/
+theorem d11_without_hook (c : Cell) (hv : c.valid = true) :
+    holdsOn c (obsOf (sessionWith libCfgs.withoutDTLSHook c)) =
+      if formerD11 c then .fails "name-mismatch" else .holds := by
+  simp only [tie_libCfgs, LibCfgs.withoutDTLSHook] at *
+  obtain ⟨t, sc, sn, cc, ca, p⟩ := c
+  revert t sc sn cc ca p
+  decide +kernel
+
+/-- the old witness, spelled out: without the hook and with `ServerName` unset the exporter completes a session
+    (and the message is delivered) with a server whose certificate - issued by the configured CA, within
+    validity - is for other.example / 10.9.9.9, not for the dialled 127.0.0.1 -/
+theorem d11_witness_without_hook :
+    let c : Cell := { transport := .dtls, serverCert := .wrongSAN, serverName := .unset, clientCert := .none,
+                      clientCA := false, peer := .real }
+    let o := sessionWith libCfgs.withoutDTLSHook c
+    o.initOk = true ∧ o.delivered = true ∧ sessionAllowed c = false ∧
+    nameMatches (expectedName c) (serverCertOf c.serverCert) = false ∧
+    holdsOn c (obsOf o) = .fails "name-mismatch" ∧ (session c).initOk = false := by
+  simp only [session, tie_libCfgs, LibCfgs.withoutDTLSHook]
+  decide +kernel
+
+/-- the former D11 cells are exactly these 56: DTLS, library on both sides, any client certificate / client CA,
+    and (ServerName, server certificate) one of the seven pairs -/
+theorem formerD11_cells (c : Cell) :
+    formerD11 c = (c.transport == .dtls && c.peer == .real &&
+      [(ServerNameKind.unset, ServerCertKind.wrongSAN), (.unset, .noSAN), (.ip, .wrongSAN), (.ip, .noSAN),
+       (.badIp, .trusted), (.badIp, .wrongSAN), (.badIp, .noSAN)].contains (c.serverName, c.serverCert)) := by
   obtain ⟨t, sc, sn, cc, ca, p⟩ := c
   revert t sc sn cc ca p
   decide +kernel
 
 /-! ## The model against the specification -/
 
-/-- on every cell of the matrix that is not a D11 cell, the model's outcome satisfies the property predicate -/
-theorem model_satisfies_spec_off_known_cells (c : Cell) (hv : c.valid = true) (hk : knownD11 c = false) :
+/-- on EVERY cell of the matrix the model's outcome satisfies the property predicate -/
+theorem model_satisfies_spec (c : Cell) (hv : c.valid = true) :
     holdsOn c (obsOf (session c)) = .holds := by
   simp only [session, tie_libCfgs] at *
   obtain ⟨t, sc, sn, cc, ca, p⟩ := c
   revert t sc sn cc ca p
   decide +kernel
 
-/-- and on every D11 cell it fails with exactly the known signature (the known set is not wider than the defect) -/
-theorem known_cells_fail (c : Cell) (hk : knownD11 c = true) :
-    holdsOn c (obsOf (session c)) = .fails "dtls-no-name-check" := by
-  simp only [session, tie_libCfgs] at *
-  obtain ⟨t, sc, sn, cc, ca, p⟩ := c
-  revert t sc sn cc ca p
-  decide +kernel
-
 /-- the correspondence relation is equality of observations, so the predicate transfers trivially -/
-theorem transfer (c : Cell) (o : Obs) (hR : o = obsOf (session c)) (hv : c.valid = true) (hk : knownD11 c = false) :
-    holdsOn c o = .holds := hR ▸ model_satisfies_spec_off_known_cells c hv hk
+theorem transfer (c : Cell) (o : Obs) (hR : o = obsOf (session c)) (hv : c.valid = true) :
+    holdsOn c o = .holds := hR ▸ model_satisfies_spec c hv
 
 /-! ## Non-vacuity -/
 
 -- valid peers DO get through (the safety statements above are not satisfied by refusing everybody)
 example : session { transport := .tls, serverCert := .trusted, serverName := .unset, clientCert := .trusted,
-                    clientCA := true, peer := .real } = { initOk := true, delivered := true, version := none } := by decide
+                    clientCA := true, peer := .real } = { initOk := true, delivered := true, version := none } := by decide +kernel
 example : session { transport := .dtls, serverCert := .trusted, serverName := .dns, clientCert := .none,
-                    clientCA := false, peer := .real } = { initOk := true, delivered := true, version := none } := by decide
+                    clientCA := false, peer := .real } = { initOk := true, delivered := true, version := none } := by decide +kernel
 example : session { transport := .tls, serverCert := .trusted, serverName := .dns, clientCert := .none,
-                    clientCA := false, peer := .srv12 } = { initOk := true, delivered := true, version := some 12 } := by decide
+                    clientCA := false, peer := .srv12 } = { initOk := true, delivered := true, version := some 12 } := by decide +kernel
 -- TLS 1.1 peers are refused in both directions
 example : (session { transport := .tls, serverCert := .trusted, serverName := .dns, clientCert := .none,
-                     clientCA := false, peer := .srv11 }).initOk = false := by decide
+                     clientCA := false, peer := .srv11 }).initOk = false := by decide +kernel
 example : (session { transport := .tls, serverCert := .trusted, serverName := .dns, clientCert := .none,
-                     clientCA := false, peer := .cli11 }).initOk = false := by decide
+                     clientCA := false, peer := .cli11 }).initOk = false := by decide +kernel
 -- a client without certificate completes its TLS 1.3 handshake but nothing is delivered
 example : session { transport := .tls, serverCert := .trusted, serverName := .dns, clientCert := .none,
-                    clientCA := true, peer := .real } = { initOk := true, delivered := false, version := none } := by decide
+                    clientCA := true, peer := .real } = { initOk := true, delivered := false, version := none } := by decide +kernel
 -- hypotheses of the general theorems are satisfiable
-example : negotiate (libTLSClient false) (libTLSServer true) = some 13 := by decide
-example : cryptoTLSVerifiesServer (libTLSClient false) none dialHost (serverCertOf .trusted) now = true := by decide
-example : serverAcceptsClient (libTLSServer true) (presented (libTLSClient true) (clientCertOf .trusted) (libTLSServer true)) now = true := by decide
-example : pionVerifiesServer libDTLSClient (some (.dns "localhost")) (serverCertOf .trusted) now = true := by decide
-example : (knownD11 { transport := .dtls, serverCert := .noSAN, serverName := .ip, clientCert := .none, clientCA := false, peer := .real }) = true := by decide
+example : negotiate (libTLSClient false) (libTLSServer true) = some 13 := by decide +kernel
+example : cryptoTLSVerifiesServer (libTLSClient false) none dialHost (serverCertOf .trusted) now = true := by decide +kernel
+example : serverAcceptsClient (libTLSServer true) (presented (libTLSClient true) (clientCertOf .trusted) (libTLSServer true)) now = true := by decide +kernel
+example : pionVerifiesServer libDTLSClient (some (.dns "localhost")) dialHost (serverCertOf .trusted) now = true := by decide +kernel
+example : pionVerifiesServer libDTLSClient none dialHost (serverCertOf .trusted) now = true := by decide +kernel
+example : pionVerifiesServer libDTLSClient none (.dns "localhost") (serverCertOf .trusted) now = true := by decide +kernel
+example : pionVerifiesServer libDTLSClient (some (.ip "127.0.0.1")) (.dns "elsewhere.example") (serverCertOf .trusted) now = true := by decide +kernel
+example : (formerD11 { transport := .dtls, serverCert := .noSAN, serverName := .ip, clientCert := .none, clientCA := false, peer := .real }) = true := by decide +kernel
+-- the reader of the hook follows the facts: a hook installed only for an empty ServerName leaves the IP cells open, and one
+-- whose `expectedName` never falls back to the dialled host verifies the empty name, which nothing matches
+example : hookVerifiesName { onUnset := true, onIP := false, onDNS := false, hostFallback := true } (some (.ip "127.0.0.1")) dialHost (serverCertOf .wrongSAN) = true := by decide +kernel
+example : hookVerifiesName { onUnset := true, onIP := true, onDNS := false, hostFallback := false } none dialHost (serverCertOf .trusted) = false := by decide +kernel
+example : condHolds "tlsConfig.ServerName == \"\"" = (true, false, false) := by decide +kernel
+example : condHolds "true" = (false, false, false) := by decide +kernel
 
 end Ipfix.C18
